@@ -77,16 +77,21 @@ def generate(seed: int, tier: str):
                       "use_first": rng.choice([None, None, "load", "average"])})  # the source loader may have been used before it is binned
     sb = rng.choice([3, 4, 5])
     # scales are dyadic so that pos/scale stays exact (DESIGN 6.3 #10: what a non-dyadic scale does to order-0 windows is C02's business)
-    return {
+    out = {
         "property": PROPERTY, "seed": seed,
         "world": {"n_tomo": n_tomo, "shapes": shapes, "storage": storage, "values": rng.choice(["int", "int", "float"]), "dtype": rng.choice(["float32", "float32", "float32", "int16", "uint8", "int8"]), "tomo_seed": rng.randrange(1 << 30),
                   "mol_seed": rng.randrange(1 << 30), "n_mol": [rng.randint(2, 5) for _ in range(n_tomo)], "box": [sb, sb, sb] if rng.random() < 0.6 else [rng.choice([3, 4, 5]) for _ in range(3)],
-                  "order": rng.choice([0, 1, 1, 3]), "scale": rng.choice([0.5, 1.0, 2.0]), "corner_safe": rng.random() < 0.2,
+                  "order": rng.choice([0, 1, 1, 3]), "scale": rng.choice([0.5, 1.0, 2.0, 2.0, 0.13375, 1.3]), "corner_safe": rng.random() < 0.2,
                   "rot": rng.choice(["identity", "identity", "random"]), "b0": b0,
                   "loader": "single" if n_tomo == 1 else "batch", "batch_order": rng.choice(["contiguous", "shuffled"])},
         "knobs": W.gen_knobs(rng), "steps": steps, "schedule": gen_schedule(rng),
         "uuid_seed": rng.randrange(1 << 30), "np_seed": rng.randrange(1 << 30),
     }
+    w_ = out["world"]
+    w_["dyadic"] = w_["scale"] in (0.5, 1.0, 2.0)
+    if not w_["dyadic"] and w_["order"] == 0:
+        w_["order"] = 1  # pos/scale is inexact for such scales; nearest-neighbour ties at voxel boundaries are C02's business
+    return out
 
 
 class Node:
@@ -137,7 +142,7 @@ def build(w):
             hi = np.maximum(hi, lo)
             k = mg.integers(lo, hi + 1)
             kc = k + np.where(box % 2 == 0, 0.5, 0.0)  # sample points of the binned window fall on binned voxels
-            if mg.random() < 0.7:
+            if mg.random() < 0.7 and w.get("dyadic", True):
                 pos_px[i] = b0 * kc + (b0 - 1) / 2
             else:
                 pos_px[i] = b0 * kc + (b0 - 1) / 2 + mg.uniform(-1.0, 1.0, size=3)
@@ -262,7 +267,7 @@ def check_loads(w, parent_ld, parent, new_ld, node, b, row_img, site, loads):
         if max_abs_diff(arr[i], ref) > tol:
             raise V("load-mismatch", site, f"row {i}: subtomogram of the binned loader differs from loading the block-summed image at the binned pose (max diff {max_abs_diff(arr[i], ref):.4g})")
         # (ii) the property's own statement, where it is exact: identity orientation, sample points on voxels, interior
-        if b > 1 and w["rot"] == "identity":
+        if b > 1 and w["rot"] == "identity" and w.get("dyadic", True):
             c = np.asarray(row.pos[0], dtype=np.float64) / node.scale
             first = c - (box - 1) / 2
             if np.abs(first - np.round(first)).max() < 1e-6:
